@@ -486,53 +486,87 @@ fn run_steps(session: &Session, r: &Replica, want: &Want, tree: Option<Element<S
 }
 
 /// Run every replica of the session, each on a fresh thread with its own entropy, one at a time.
-pub fn run_session(session: &Session, want: &Want) -> Result<Vec<ReplicaOut>, String> {
-    let mut outs = Vec::new();
-    let shared = std::sync::Arc::new(session.clone());
-    for i in 0..session.replicas.len() {
-        let s = shared.clone();
-        let w = want.clone();
-        let e = session.replicas[i].entropy;
-        // replicas run one at a time, so the process-global log level is part of the replica's environment
-        crate::set_logging(session.replicas[i].role.contains("logging"));
-        // roles starting with "env-" (also after "logging-") run with a populated environment
-        let role = &session.replicas[i].role;
-        let env_on = role.contains("env-");
-        let (steps, calls, env_read) = if role.contains("migrating") {
-            // the tree is `Send`: every delivery of this replica runs on another fresh thread (own entropy, own
-            // thread-locals), the tree travelling from thread to thread like a value handed between workers
-            let mut tree: Option<Element<String>> = None;
-            let mut all = Vec::new();
-            let mut calls = 0;
-            let mut env_read: Vec<String> = Vec::new();
-            for k in 0..session.replicas[i].steps.len() {
-                let s2 = s.clone();
-                let w2 = w.clone();
-                let t = tree.take();
-                let ek = e ^ ((k as u128 + 1) * 0x9E37_79B9_7F4A_7C15);
-                let ((mut outs, t2), c, er) = crate::entropy::with_env(ek, env_on, move || {
-                    if k == 0 {
-                        run_warmup(&s2, &s2.replicas[i]);
-                    }
-                    run_steps(&s2, &s2.replicas[i], &w2, t, k, k + 1)
-                })?;
-                tree = t2;
-                all.append(&mut outs);
-                calls += c;
-                for n in er {
-                    if !env_read.contains(&n) {
-                        env_read.push(n);
-                    }
+fn run_one_replica(shared: &std::sync::Arc<Session>, i: usize, want: &Want) -> Result<ReplicaOut, String> {
+    let session: &Session = shared;
+    let s = shared.clone();
+    let w = want.clone();
+    let e = session.replicas[i].entropy;
+    let role = &session.replicas[i].role;
+    // roles containing "env-" run with a populated environment
+    let env_on = role.contains("env-");
+    let (steps, calls, env_read) = if role.contains("migrating") {
+        // the tree is `Send`: every delivery of this replica runs on another fresh thread (own entropy, own
+        // thread-locals), the tree travelling from thread to thread like a value handed between workers
+        let mut tree: Option<Element<String>> = None;
+        let mut all = Vec::new();
+        let mut calls = 0;
+        let mut env_read: Vec<String> = Vec::new();
+        for k in 0..session.replicas[i].steps.len() {
+            let s2 = s.clone();
+            let w2 = w.clone();
+            let t = tree.take();
+            let ek = e ^ ((k as u128 + 1) * 0x9E37_79B9_7F4A_7C15);
+            let ((mut outs, t2), c, er) = crate::entropy::with_env(ek, env_on, move || {
+                if k == 0 {
+                    run_warmup(&s2, &s2.replicas[i]);
+                }
+                run_steps(&s2, &s2.replicas[i], &w2, t, k, k + 1)
+            })?;
+            tree = t2;
+            all.append(&mut outs);
+            calls += c;
+            for n in er {
+                if !env_read.contains(&n) {
+                    env_read.push(n);
                 }
             }
-            (all, calls, env_read)
-        } else {
-            crate::entropy::with_env(e, env_on, move || run_replica_here(&s, &s.replicas[i], &w))?
-        };
+        }
+        (all, calls, env_read)
+    } else {
+        crate::entropy::with_env(e, env_on, move || run_replica_here(&s, &s.replicas[i], &w))?
+    };
+    Ok(ReplicaOut { steps, getrandom_calls: calls, env_read })
+}
+
+/// Run every replica of the session, each on a fresh thread with its own entropy. Replicas run one at a time,
+/// except where a replica's plan has a park point: that replica stops inside its reader at the chosen call, the
+/// next replica runs to completion meanwhile, then the parked one is released - a deterministic interleaving
+/// of two parses that are in flight in the same process.
+pub fn run_session(session: &Session, want: &Want) -> Result<Vec<ReplicaOut>, String> {
+    let n = session.replicas.len();
+    let mut outs: Vec<Option<ReplicaOut>> = (0..n).map(|_| None).collect();
+    let shared = std::sync::Arc::new(session.clone());
+    let mut i = 0;
+    while i < n {
+        let r = &session.replicas[i];
+        let parks = i + 1 < n && !r.role.contains("migrating") && r.steps.iter().any(|st| !st.plan.slice && st.plan.park_at.is_some());
+        // the process-global log level is part of the replica's environment (of both replicas while two are in flight)
+        let log_on = r.role.contains("logging") || (parks && session.replicas[i + 1].role.contains("logging"));
+        crate::set_logging(log_on);
+        if !parks {
+            outs[i] = Some(run_one_replica(&shared, i, want)?);
+            crate::set_logging(false);
+            i += 1;
+            continue;
+        }
+        let (parked_tx, parked_rx) = std::sync::mpsc::channel::<()>();
+        let (release_tx, release_rx) = std::sync::mpsc::channel::<()>();
+        let s = shared.clone();
+        let w = want.clone();
+        let h = crate::entropy::spawn_env(r.entropy, r.role.contains("env-"), Some((parked_tx, release_rx)), move || run_replica_here(&s, &s.replicas[i], &w))?;
+        // wait until the replica is parked or has finished without ever reaching its park point (the sender is
+        // dropped with the thread-local when the thread ends, which ends the wait as well)
+        let parked = parked_rx.recv().is_ok();
+        if parked {
+            outs[i + 1] = Some(run_one_replica(&shared, i + 1, want)?);
+            let _ = release_tx.send(());
+        }
+        let (steps, calls, env_read) = h.join().map_err(|p| crate::panic_text(&p))?;
+        outs[i] = Some(ReplicaOut { steps, getrandom_calls: calls, env_read });
         crate::set_logging(false);
-        outs.push(ReplicaOut { steps, getrandom_calls: calls, env_read });
+        i += if parked { 2 } else { 1 };
     }
-    Ok(outs)
+    Ok(outs.into_iter().map(|o| o.expect("every replica ran")).collect())
 }
 
 /// order-sensitive hash of everything observable in a run (determinism check)
